@@ -182,6 +182,13 @@ def tlc_check(wd, name, module, cfg, timeout=600, workers=None, simulate=None, d
     out = "".join(l for l in open(outp, errors="replace") if not l.startswith('<<"REPLAY"'))
     r = parse_tlc(out)
     r["simulate"] = bool(simulate)
+    if coverage:
+        # per-action counts "distinct:generated" of the last coverage report
+        cov = {}
+        for m in re.finditer(r"^<(\w+) line \d+, col \d+ to line \d+, col \d+ of module (\w+)>: (\d+):(\d+)",
+                             out, flags=re.M):
+            cov[m.group(2) + "." + m.group(1)] = (int(m.group(3)), int(m.group(4)))
+        r["coverage"] = cov
     if simulate and p.returncode == 0:
         r["completed"] = True
     r["timed_out"] = p.returncode == 124
@@ -361,6 +368,12 @@ class Verdict:
             return
         self.states += r["distinct"]
         self.transitions += r["states"]
+        if r.get("coverage"):
+            never = sorted(a for a, (d, g) in r["coverage"].items() if g == 0)
+            step["actions_fired"] = {a: g for a, (d, g) in sorted(r["coverage"].items())}
+            step["actions_never_fired"] = never
+            if never:
+                self.tool_errors.append(f"{r['name']}: actions never taken (vacuity): {never}")
         if r["violated"]:
             p = write_replay(self.pid, r["name"], {"kind": "tlc-counterexample",
                                                   "invariant": r["violated"], "tlc_output": r["out"]})
